@@ -11,6 +11,10 @@ H : harness c11 executes every document on the static family with limits configu
     cfg-guarded work counters (async_graphql::verif_hooks, the only hook of the project) after each request.
 V : WorkTrace.tla: counter <= PolyBound(doc) (verdict; above the bound only known:DevNoMemo on documents in
     its trigger class and never above the as-coded work) and counter = Visits_asCoded(doc) (drift only).
+Fibonacci DAGs of fragments (f_i spreads f_i+1 and f_i+2), spread from the operation and unreferenced, aim at the rules' own
+    searches over the spread graph (NoFragmentCycles ...), which no counter of the hook sees: M shows that the guarded search is
+    linear and the unguarded one is not (expected counterexample); V bounds the request's thread CPU time (smallest of up to
+    three runs) by SlackUs + UsPerUnit * max(PolyBound, as-coded work) -- orders of magnitude above the unchanged tree.
 The hook is not in /repo until the lead commits checks/C11.hook.diff: without it this check exits 2."""
 import json, os, random, re, shutil, sys
 sys.path.insert(0, os.path.join(os.path.dirname(os.path.abspath(__file__)), "..", "lib"))
@@ -18,7 +22,7 @@ import vlib, gqlgen
 
 SCHEMA = os.path.join(vlib.ROOT, "schemas", "exec.json")
 HOOK = os.path.join(vlib.ROOT, "checks", "C11.hook.diff")
-COUNTERS = ["visit_selection", "visit_field", "recursive_depth", "max_directives", "find_conflicts"]
+COUNTERS = ["visit_selection", "visit_field", "recursive_depth", "max_directives", "find_conflicts", "cycle_detect"]   # the sixth only if the hook has it
 
 
 def repo_path():
@@ -31,9 +35,10 @@ def fld(name, alias="", sels=()):
     return {"k": "field", "name": name, "alias": alias, "args": [], "dirs": [], "sels": list(sels)}
 
 
-def rand_dag(rng, nfrag):
+def rand_dag(rng, nfrag, free=False):
     """seeded fragment DAG on Query: f_i spreads one or two later fragments (sometimes the same one twice) and
-    selects a few fields; the operation spreads f1 (and sometimes f2).  Valid: no cycles, no unused fragment."""
+    selects a few fields; the operation spreads f1 (and sometimes f2).  Valid: no cycles, no unused fragment.
+    free: no operation spreads the fragments (the request is refused by NoUnusedFragments after the full checking work)."""
     frags = []
     used = {1}
     for i in range(1, nfrag + 1):
@@ -51,6 +56,8 @@ def rand_dag(rng, nfrag):
     for i in range(2, nfrag + 1):
         if i not in used:
             root.append({"k": "spread", "name": "f%d" % i, "dirs": []})
+    if free:
+        root = [fld("n")]
     return {"ops": [{"name": "", "ty": "query", "vars": [], "dirs": [], "sels": root}], "frags": frags}
 
 
@@ -78,7 +85,8 @@ def body(c):
     if rf.invariant_violated:
         raise vlib.ToolError("design-level failure in Limits.tla: a fan-out chain deeper than limit_recursive_depth is not refused cheaply by the "
                              "as-coded walkers (RefusedCheap): " + str(rf.invariant_violated))
-    c.add_tlc("M refused requests are cheap: as-coded work of chains deeper than limits 8/12/16/default <= PolyBound, outside DevNoMemo's trigger (n<=40)", rf)
+    c.add_tlc("M refused requests are cheap: as-coded work of chains deeper than limits 8/12/16/default <= PolyBound, outside DevNoMemo's trigger; NoFragmentCycles search "
+              "<= Size on all families incl. Fibonacci DAGs (n<=40)", rf)
     d = vlib.run_tlc("gql/MC_LimitsWork.tla", "gql/MC_LimitsWorkDevNoMemo.cfg", workers=1, timeout=900, keep_lines=200, expect_violation=True)
     cex = d.tagged("COUNTEREXAMPLE")
     if d.invariant_violated != "CodedPoly" or not cex:
@@ -87,6 +95,14 @@ def body(c):
     c.cov["design_counterexample"] = {"family": cex[0][1], "n": cex[0][2], "size": cex[0][3], "poly_bound": cex[0][4], "as_coded_work": cex[0][5],
                                       "note": "Limits!Visits_asCoded exceeds K*Size^2 (K=4): a fragment is re-visited once per spread"}
     c.cov["design_table"] = [r for r in table if r["n"] in (4, 8, 12, 14)]
+    ng = vlib.run_tlc("gql/MC_LimitsWork.tla", "gql/MC_LimitsWorkCycleNoGuard.cfg", workers=1, timeout=900, keep_lines=200, expect_violation=True)
+    cex = ng.tagged("COUNTEREXAMPLE")
+    if ng.invariant_violated != "NoGuardPoly" or not cex:
+        raise vlib.ToolError("mode M: the cycle search without its `visited` guard was expected to exceed PolyBound on the Fibonacci DAGs, got %s" % ng.invariant_violated)
+    c.add_tlc("M NoFragmentCycles search without the visited guard vs PolyBound on the Fibonacci DAGs: counterexample expected", ng)
+    c.cov["design_counterexample_cycle_search"] = {"family": cex[0][1], "n": cex[0][2], "size": cex[0][3], "poly_bound": cex[0][4], "calls_without_guard": cex[0][5],
+                                                   "note": "Limits!Visits_cyclesNoGuard (every path of the spread graph) exceeds K*Size^2; the guarded search (Visits_cycles <= Size, "
+                                                           "checked for n<=40 with RefusedCheap) is what the code does today -- no counter of the hook observes it, V holds it through CPU time"}
 
     # ---- G: documents -------------------------------------------------------------------------------------
     max_n, max_fan = (24, 15) if c.quick else (40, 19)
@@ -105,6 +121,16 @@ def body(c):
             cases.append({"id": 0, "family": fname, "n": n, "cfg": PASS, "doc": fam_docs[(fname, n)]})
     if len({x["family"] for x in cases}) != 4:
         raise vlib.ToolError("family generation incomplete: %s" % sorted({x["family"] for x in cases}))
+    # Fibonacci DAGs: spread from the operation (exponential as coded, like the fan-out chain: n small), unreferenced and
+    # referenced at the leaf only (no operation-rooted walker enters the DAG: the checks must stay cheap for every n)
+    fib_ns = {"fibdag": [n for n in (2, 3, 5, 8, 11, 14, 17, 20, 22, 23, 25, 27) if n <= max_fan + 8],
+              "fibfree": (1, 2, 3, 4, 6, 8, 12, 16, 20, 24, 28, 30, 32, 34, 35, 36, 37, 38) + (() if c.quick else (39, 40)),
+              "fibtail": (2, 5, 9, 14, 19, 26, 31, 33, 36, 38) + (() if c.quick else (40,))}
+    for fname in sorted(fib_ns):
+        for n in fib_ns[fname]:
+            if (fname, n) not in fam_docs:
+                raise vlib.ToolError("generator did not print %s n=%d" % (fname, n))
+            cases.append({"id": 0, "family": fname, "n": n, "cfg": PASS, "doc": fam_docs[(fname, n)]})
     # requests that a limit refuses: chains deeper than limit_recursive_depth (the walker must stop at the first violation, so
     # the work is small and nothing is excused), the request exactly at the limit (passes, full walk), and the directive limit
     refused = []
@@ -156,6 +182,11 @@ def body(c):
         cases.append({"id": 0, "family": "randdag", "n": 0, "cfg": PASS, "doc": dag})
         if rng.random() < 0.4:                              # the same DAG under a small recursion limit: refused early or walked in full
             cases.append({"id": 0, "family": "randdag@rec", "n": 0, "cfg": {"recursive": rng.choice([2, 4, 6, 9]), "directives": 1000}, "doc": dag})
+    # unreferenced random DAGs (own random stream: the older cases stay what they were), also bigger ones -- nothing operation-rooted walks them
+    rfree = random.Random(c.seed * 13 + 7)
+    nfree = 60 if c.quick else 600
+    for _ in range(nfree):
+        cases.append({"id": 0, "family": "randdagfree", "n": 0, "cfg": PASS, "doc": rand_dag(rfree, rfree.randint(2, 30), free=True)})
     cases += refused                                        # last: a run-away walk ends the harness run (watchdog) after everything else was recorded
     for i, x in enumerate(cases):
         x["id"] = i + 1
@@ -172,7 +203,7 @@ def body(c):
     if len(obs) != len(cases) and not aborted:
         raise vlib.ToolError("c11 harness recorded %d of %d requests" % (len(obs), len(cases)))
     slim = [{"id": o["id"], "family": o["family"], "n": o["n"], "cfg": o["cfg"], "doc": o["doc"],
-             "obs": {k: o["obs"][k] for k in ("counters", "wallUs", "refused", "aborted", "problem")}} for o in obs]
+             "obs": {k: o["obs"][k] for k in ("counters", "wallUs", "cpuUs", "refused", "aborted", "problem")}} for o in obs]
     vlib.write_ndjson(c.path("judge.ndjson"), slim)
 
     # ---- V ----------------------------------------------------------------------------------------------------
@@ -183,17 +214,24 @@ def body(c):
         raise vlib.ToolError("V produced %d verdicts for %d requests" % (len(ver), len(obs)))
     worst = {}
     above = 0
+    cpu_ratio = 0.0
     nrefused = 0
     for o in obs:
         t = json.loads(ver[o["id"]][2])
         verdict, size, bound, coded, match, ideal = t["verdict"], t["size"], t["bound"], t["coded"], t["match"], t["ideal"]
+        cpu_ratio = max(cpu_ratio, o["obs"]["cpuUs"] / t["cpuAllowed"])
         cnt = o["obs"]["counters"]
         c.count_case({"text": o["text"], "cfg": o["cfg"]}, nontrivial=True)
         rec = {"family": o["family"], "n": o["n"], "size": size, "bytes": o["bytes"], "poly_bound": bound, "counters": dict(zip(COUNTERS, cnt)),
-               "as_coded": coded, "ideal": ideal, "wall_us": o["obs"]["wallUs"], "refused": o["obs"]["refused"], "text": o["text"][:400]}
-        c.verdict(verdict, rec, "checking work %d exceeds PolyBound %d (size %d) and is not explained by DevNoMemo" % (max(cnt), bound, size))
+               "as_coded": coded, "ideal": ideal, "cycle_search_calls": t["cycles"], "wall_us": o["obs"]["wallUs"], "cpu_us": o["obs"]["cpuUs"], "cpu_allowed_us": t["cpuAllowed"], "refused": o["obs"]["refused"], "text": o["text"][:400]}
+        if verdict == "violation:cpu":
+            what = ("request of size %d took %d us of thread CPU time (smallest of up to three runs), allowed %d us = slack + 1 us per unit of max(PolyBound %d, as-coded "
+                    "work): checking work that no counter sees is not polynomial" % (size, o["obs"]["cpuUs"], t["cpuAllowed"], bound))
+        else:
+            what = "checking work %d exceeds PolyBound %d (size %d) and is not explained by DevNoMemo" % (max(cnt), bound, size)
+        c.verdict(verdict, rec, what)
         if not match:
-            c.drift("request %d (%s n=%s): counters %s but Visits_asCoded %s" % (o["id"], o["family"], o["n"], cnt, coded))
+            c.drift("request %d (%s n=%s): counters %s but Visits_asCoded %s, cycle search %s" % (o["id"], o["family"], o["n"], cnt, coded, t["cycles"]))
         if verdict != "ok":
             above += 1
         if o["above"]:
@@ -205,7 +243,7 @@ def body(c):
                 c.violation(rec, "a request refused by its limit must not need an excuse (%s)" % verdict)
         w = worst.get(o["family"])
         if w is None or max(cnt) > max(w["counters"].values()):
-            worst[o["family"]] = {k: rec[k] for k in ("n", "size", "bytes", "poly_bound", "counters", "wall_us", "refused")}
+            worst[o["family"]] = {k: rec[k] for k in ("n", "size", "bytes", "poly_bound", "counters", "wall_us", "cpu_us", "refused")}
     if aborted:
         c.notes.append("the harness watchdog ended the run at request %d: checking work went beyond 2^26" % obs[-1]["id"])
     if nrefused == 0 and not aborted:
@@ -219,18 +257,25 @@ def body(c):
     c.cov["exhaustive"] = False
     c.cov["largest_work_by_family"] = worst
     c.cov["requests_above_bound"] = above
+    c.cov["largest_cpu_time_over_allowed"] = round(cpu_ratio, 5)
+    if not any(o["family"] == "fibfree" and o["n"] >= 36 for o in obs) and not aborted:
+        raise vlib.ToolError("vacuous: no large unreferenced Fibonacci DAG was run")
     c.cov["rule"] = ("families from TLC (MC_LimitsWork!Family): fan-out chains n<=%d (as-coded work < 2^20), wide overlapping selections, deep inline nesting and "
                      "many operations n<=%d; the chains (also behind three operations, and deep inline nesting) sized at and above limit_recursive_depth 8 / 12 / 16 / default "
                      "(n up to 40: refused after limit+2 walker calls, judged without excuse) and before / behind a field over limit_directives; %d seeded random documents over the static family (4-30 nodes, nested fragments, fragments spread twice) and %d seeded "
-                     "random fragment DAGs; each executed once with limits configured, counters read after the request; distinct by document text; every request "
-                     "exercises all five counters' walkers" % (max_fan, max_n, nrand, ndag))
+                     "random fragment DAGs; Fibonacci DAGs of fragments spread from the operation (n<=%d), unreferenced and referenced at the leaf only (n<=%d) and %d unreferenced "
+                     "seeded random DAGs of up to 30 fragments (the rules' own searches; judged through thread CPU time as well); each executed once with limits configured "
+                     "(again, for the CPU time only, when it took > 20 ms), counters read after the request; distinct by document text; every request "
+                     "exercises all five counters' walkers" % (max_fan, max_n, nrand, ndag, max(fib_ns["fibdag"]), max(fib_ns["fibfree"]), nfree))
     big = [o for o in obs if o["family"] == "fanout"][-1]
     for o in obs[:1] + [big] + [o for o in obs if o["family"] == "random"][:1]:
         t = json.loads(ver[o["id"]][2])
         c.sample({"family": o["family"], "n": o["n"], "text": o["text"][:300], "size": t["size"], "poly_bound": t["bound"], "counters": o["obs"]["counters"],
                   "as_coded": t["coded"], "wall_us": o["obs"]["wallUs"], "verdict": t["verdict"]})
     c.assumptions += ["work = the five hook counters (validation visitor calls, recursion/directive walkers, FindConflicts searches); parsing and the rules' own "
-                      "bookkeeping are not counted; wall time is recorded, never judged",
+                      "bookkeeping are not counted by the hook (proposed: a sixth counter in CycleDetector::detect_from); wall time is recorded, never judged",
+                      "thread CPU time (CLOCK_THREAD_CPUTIME_ID, smallest of up to three runs) stands for the uncounted work: a request within the bound needs at most "
+                      "100 ms + 1 us per unit of max(PolyBound, as-coded work) -- measured on the unchanged tree: the largest ratio is in largest_cpu_time_over_allowed",
                       "PolyBound = 4 * Size^2 with Size = definitions + selection nodes as written",
                       "the hook (checks/C11.hook.diff) only adds counters under #[cfg(async_graphql_verif)]"]
 
